@@ -32,7 +32,7 @@ COMPONENTS = {
     "stub": ["clock/_run_once", "TCP delivery with bit corruption (SimNet)", "console = byte source + CRC verifier of client frames"],
 }
 ASSUMPTIONS = [
-    "the error patterns enumerated are those CRC-16 detects by construction (1 bit, 2 bits, bursts <= 16 bits) on frames far shorter than 32767 bits; a burst is contiguous in the CRC's own bit order (least significant bit of each byte first)",
+    "the error patterns enumerated are those CRC-16 detects by construction (1 bit, 2 bits, bursts <= 16 bits) on frames far shorter than 32767 bits; a burst is contiguous in the CRC's own codeword order (least significant bit of each byte first; register low byte before high byte, whereas the frame carries the high check byte first)",
     "the two pad bytes of the undocumented AT5 outer header are not 'covered bytes' and are not corrupted",
     "the exhaustive 1..2-byte comparison of calculate() is a plain function comparison, not simulation; the 3-byte enumeration and the induction on length of the property text are not reproduced",
 ]
@@ -81,11 +81,16 @@ def _scenario(gen: int, kind: str, frame: bytes, bits: list[int], pattern: str, 
     }
 
 
-def _lsb(p: int) -> int:
-    """Position p in the CRC's own bit order (bytes in sequence, least significant bit of each byte first - CRC-16/MODBUS is a
-    reflected CRC) -> index in the most-significant-bit-first numbering the scenarios use.  A burst is contiguous in the CRC's
-    order; only then is its detection guaranteed."""
-    return (p // 8) * 8 + (7 - p % 8)
+def _lsb(p: int, n_bytes: int = 0) -> int:
+    """Position p in the CRC's own codeword order -> index in the most-significant-bit-first wire numbering the scenarios use.
+    The codeword of CRC-16/MODBUS (a reflected CRC) is: the covered bytes in sequence, then the register's LOW byte, then its
+    HIGH byte, each byte least significant bit first.  The AirTouch frame carries the two check bytes HIGH byte first, i.e.
+    swapped with respect to the codeword.  A burst is contiguous in codeword order; only then is its detection guaranteed
+    (a run of wire bits that straddles the last payload byte and the check bytes can span 24 codeword bits)."""
+    byte = p // 8
+    if n_bytes and byte >= n_bytes - 2:
+        byte = (n_bytes - 2) + (n_bytes - 1) - byte  # low <-> high check byte
+    return byte * 8 + (7 - p % 8)
 
 
 def _positions(gen: int, n_bytes: int):
@@ -209,7 +214,8 @@ def enumerated(tier: str):
                         end = start + blen - 1
                         if end >= len(fr) * 8:
                             continue
-                        bits = [_lsb(start), _lsb(end)] + [_lsb(b) for b in range(start + 1, end) if rng.random() < 0.5]
+                        nb = len(fr)
+                        bits = [_lsb(start, nb), _lsb(end, nb)] + [_lsb(b, nb) for b in range(start + 1, end) if rng.random() < 0.5]
                         bits = [b for b in bits if b in set(pos)]
                         if len(bits) >= 1:
                             yield _scenario(gen, kind, fr, sorted(set(bits)), "burst", with_neighbours=False)
@@ -230,7 +236,8 @@ def generate(rng, index: int, tier: str) -> dict:
     else:
         blen = rng.randint(2, 16)
         start = rng.randrange(0, len(fr) * 8 - blen + 1)
-        bits = sorted({_lsb(start), _lsb(start + blen - 1)} | {_lsb(b) for b in range(start + 1, start + blen - 1) if rng.random() < 0.5})
+        nb = len(fr)
+        bits = sorted({_lsb(start, nb), _lsb(start + blen - 1, nb)} | {_lsb(b, nb) for b in range(start + 1, start + blen - 1) if rng.random() < 0.5})
         bits = [b for b in bits if b in set(pos)] or [rng.choice(pos)]
     seg = rng.choice([{"mode": "whole"}, {"mode": "random", "seed": rng.getrandbits(16), "max": 5}])
     return _scenario(gen, kind, fr, bits, pattern, with_neighbours=rng.random() < 0.7, seg=seg, history=rng.choice(["none", "none", "same_before", "same_prev_conn"]))
